@@ -422,7 +422,7 @@ func fileLong(lc longCase, k int, dl delivery, out string) {
 	}
 	res, det := accepted(mc, cut, dl)
 	if res == "" {
-		run.EngineError("long-string: reduction of %s %s with %d content bytes cut at %d lost the failure", e.decoder, e.shape, lc.content, k)
+		run.Unstable(fmt.Sprintf("cut/%s/accepted/long-string", e.decoder), fmt.Sprintf("%s %s with %d content bytes: a strict prefix (cut at %d) was accepted during the enumeration but refused when the case was re-run", e.decoder, e.shape, lc.content, k), map[string]interface{}{"decoder": e.decoder, "shape": e.shape, "content": lc.content, "cut": k})
 		return
 	}
 	suffix := ""
